@@ -78,9 +78,9 @@ Proof.
   - (* known size: nothing is added to the buffer *)
     assert (Hu : o_unknown (wopt d (lv_sl lv)) = false) by (destruct d; reflexivity).
     assert (Hb : buffer_tag sp (TStart id) (wopt d (lv_sl lv)) st = (start_tag st id (size_len_of (wopt d (lv_sl lv))), WOk)).
-    { rewrite buffer_tag_eq. cbn [tag_id is_master_tag negb]. rewrite Hty, Hu. cbn [andb is_master_ty].
-      unfold should_validate. cbn [tag_id is_end negb]. rewrite Hty, Hval. cbn [negb andb].
-      unfold buffer_act. rewrite Hu. cbn [tag_id]. rewrite Hty. reflexivity. }
+    { rewrite buffer_tag_eq; raw_simpl. cbn [tag_id is_master_tag negb]. rewrite Hty, Hu. cbn [andb is_master_ty].
+      unfold should_validate; raw_simpl. cbn [tag_id is_end negb]. rewrite Hty, Hval. cbn [negb andb].
+      unfold buffer_act; raw_simpl. rewrite Hu. cbn [tag_id]. rewrite Hty. reflexivity. }
     destruct (write_step sp st _ _ _ Hb Hs) as [st1 [Hstep1 [Ho1 [Hsc1 [Him1 [Hk1 _]]]]]].
     cbn [start_tag set_open w_open w_buf] in Ho1, Him1, Hk1.
     assert (Hkn1 : has_known (w_open st1) = true) by (rewrite Ho1; reflexivity).
@@ -90,9 +90,9 @@ Proof.
     split; [intros _; exact Hd1|rewrite Hkn1; discriminate].
   - (* unknown size: the header goes out at once *)
     assert (Hb : buffer_tag sp (TStart id) opts_unknown st = (start_unknown_size_tag st id, WOk)).
-    { rewrite buffer_tag_eq. cbn [tag_id is_master_tag negb opts_unknown o_unknown]. rewrite Hty. cbn [andb is_master_ty negb].
-      unfold should_validate. cbn [tag_id is_end negb]. rewrite Hty, Hval. cbn [negb andb].
-      unfold buffer_act. cbn [o_unknown opts_unknown]. reflexivity. }
+    { rewrite buffer_tag_eq; raw_simpl. cbn [tag_id is_master_tag negb opts_unknown o_unknown]. rewrite Hty. cbn [andb is_master_ty negb].
+      unfold should_validate; raw_simpl. cbn [tag_id is_end negb]. rewrite Hty, Hval. cbn [negb andb].
+      unfold buffer_act; raw_simpl. cbn [o_unknown opts_unknown]. reflexivity. }
     destruct (write_step sp st _ _ _ Hb Hs) as [st1 [Hstep1 [Ho1 [Hsc1 [Him1 [Hk1 Hu1]]]]]].
     cbn [start_unknown_size_tag set_open set_buf w_open w_buf] in Ho1, Him1, Hk1, Hu1.
     assert (Hkn1 : has_known (w_open st1) = has_known (w_open st)) by (rewrite Ho1; reflexivity).
